@@ -272,22 +272,18 @@ def main(ns):
                     return core.EXIT_HARNESS
         finally:
             shutil.rmtree(base, ignore_errors=True)
-    killed = missed = stale = 0
-    for ent in entries:
+    def run_entry(ent):
         if ent.get('neutralised_by'):
             # a later repair of /repo made the library robust against this change: it no longer breaks the
             # property (its demonstration passes with the patch applied), so there is nothing to detect
             print('NEUTRAL %-40s %s' % (ent['id'], ent['neutralised_by'][:100]))
-            results.append({'id': ent['id'], 'status': 'neutralised', 'why': ent['neutralised_by'], 'seeded': True})
-            continue
+            return {'id': ent['id'], 'status': 'neutralised', 'why': ent['neutralised_by'], 'seeded': True}
         base = make_scratch(repo)
         try:
             why = apply_entry(base, ent)
             if why:
                 print('STALE   %-40s %s' % (ent['id'], why))
-                results.append({'id': ent['id'], 'status': 'stale', 'why': why})
-                stale += 1
-                continue
+                return {'id': ent['id'], 'status': 'stale', 'why': why}
             caught_by = []
             replayed = None
             detail = {}
@@ -301,18 +297,28 @@ def main(ns):
                 elif code == 2:
                     detail[prop]['harness'] = out[-600:]
             status = 'killed' if caught_by else 'missed'
-            if caught_by:
-                killed += 1
-            else:
-                missed += 1
             print('%-7s %-40s by=%s replay_reproduces=%s %s' % (status.upper(), ent['id'], ','.join(caught_by) or '-',
                                                                replayed, json.dumps(detail)))
             sys.stdout.flush()
-            results.append({'id': ent['id'], 'status': status, 'caught_by': caught_by, 'expected': ent['props'],
-                            'replay_reproduces': replayed, 'detail': detail, 'note': ent.get('note'),
-                            'seeded': bool(ent.get('seeded'))})
+            return {'id': ent['id'], 'status': status, 'caught_by': caught_by, 'expected': ent['props'],
+                    'replay_reproduces': replayed, 'detail': detail, 'note': ent.get('note'),
+                    'seeded': bool(ent.get('seeded'))}
         finally:
             shutil.rmtree(base, ignore_errors=True)
+
+    # VERIF_MUTANT_PARALLEL=n runs n changed trees at a time, each check with 16/n workers (the checks have
+    # serial phases - plan generation, the oracle - so this roughly halves the wall time of the whole table)
+    par = max(1, int(os.environ.get('VERIF_MUTANT_PARALLEL', '1')))
+    if par > 1:
+        os.environ['VERIF_JOBS'] = str(max(2, (os.cpu_count() or 16) // par))
+        from concurrent.futures import ThreadPoolExecutor
+        with ThreadPoolExecutor(max_workers=par) as ex:
+            results = list(ex.map(run_entry, entries))
+    else:
+        results = [run_entry(e) for e in entries]
+    killed = sum(1 for r in results if r['status'] == 'killed')
+    missed = sum(1 for r in results if r['status'] == 'missed')
+    stale = sum(1 for r in results if r['status'] == 'stale')
     d = os.path.join(core.VERIF_DIR, 'selftest')
     os.makedirs(d, exist_ok=True)
     path = os.path.join(d, 'mutants.json')
